@@ -30,6 +30,8 @@ Theorem C17_sorted_after_any_history : forall ops,
 Proof. exact (fun ops => proj1 (sorted_inv src_cfg ops C17_source_configuration_good)). Qed.
 Print Assumptions C17_sorted_after_any_history.
 
+(* identities (= index of the call that created the object) never decrease along a class part: handlers
+   of one class are in call order; two equal neighbours are the SAME object appended again *)
 Theorem C17_same_class_keeps_insertion_order : forall c ops, ids_increasing (class_log c ops) = true.
 Proof. exact class_log_in_insertion_order. Qed.
 Print Assumptions C17_same_class_keeps_insertion_order.
@@ -76,6 +78,12 @@ Example C17_nonvacuous :
   run_cfg src_cfg [AppendPipeline; AppendSink; SetFormatter; AppendFilter; AppendAttr; AppendSink;
                    SetFormatter; Clear Filt; AppendFilter; AppendAttr; AppendPipeline]
   = [(Attr, 4); (Attr, 9); (Filt, 8); (Fmt, 6); (Snk, 1); (Snk, 5); (Pipe, 0); (Pipe, 10)].
+Proof. vm_compute. reflexivity. Qed.
+(* appending the SAME attribute handler / filter / sink object again keeps the class order (the
+   object then occurs twice, both occurrences inside its class part) *)
+Example C17_nonvacuous_same_object_again :
+  run_cfg src_cfg [SetFormatter; AppendAttr; AppendAgain Attr; AppendSink; AppendFilter; AppendAgain Filt; AppendAgain Snk]
+  = [(Attr, 1); (Attr, 1); (Filt, 4); (Filt, 4); (Fmt, 0); (Snk, 3); (Snk, 3)].
 Proof. vm_compute. reflexivity. Qed.
 (* setting the SAME formatter object again leaves exactly one formatter (its identity is 1) *)
 Example C17_nonvacuous_same_formatter_again :
